@@ -66,6 +66,9 @@ type Step struct {
 	K    string `json:"k"` // set | unset | sync
 	Name string `json:"name"`
 	Spec *Spec  `json:"spec,omitempty"`
+	// sync only: which version of the object the queue hands to the handler: 0 = the latest written, k = the k-th
+	// older one (a superseded event that was requeued). The handler must only use its name.
+	Ev int `json:"ev,omitempty"`
 }
 
 type Case struct {
@@ -233,8 +236,11 @@ func execute(cs Case) (res execResult) {
 	wrapped := ctl.WrapGetConfigForClient(func(*tls.ClientHelloInfo) (*tls.Config, error) { return baseConfig, nil })
 
 	lastObj := map[string]*proxyv1alpha1.UpstreamCluster{}
+	written := map[string][]*proxyv1alpha1.UpstreamCluster{}
 	pending := map[string]bool{}
-	settledOK := cs.Kind == "admissible"
+	// settled: so far every object written was admitted by the REAL plug-in and synced at once (the shape of
+	// history `c10_admissible` is about); it never becomes true again once broken
+	settledOK := true
 	rv := 0
 
 	for si, st := range cs.Steps {
@@ -261,6 +267,7 @@ func execute(cs Case) (res execResult) {
 					indexer.Add(obj) //nolint
 				}
 				lastObj[name] = obj
+				written[name] = append(written[name], obj)
 				if !o.Admit || len(pending) > 0 {
 					settledOK = false
 				}
@@ -275,15 +282,22 @@ func execute(cs Case) (res execResult) {
 				pending[name] = true
 			case "sync":
 				obj := lastObj[name]
+				if w := written[name]; st.Ev > 0 && len(w) > 0 {
+					i := len(w) - 1 - st.Ev
+					if i < 0 {
+						i = 0
+					}
+					obj = w[i]
+				}
 				if obj == nil {
 					obj = mkObj(name, nil, 0)
 				}
 				r, err := ctl.VerifC10Sync(obj)
 				o.Requeue = err != nil || r.Requeue || r.RequeueAfter > 0
-				delete(pending, name)
-				if strings.ToLower(name) != name {
+				if strings.ToLower(name) != name || (len(pending) > 0 && !pending[name]) {
 					settledOK = false
 				}
+				delete(pending, name)
 			}
 		})
 		if panicked {
@@ -325,6 +339,11 @@ func execute(cs Case) (res execResult) {
 			}
 			if vca != inf.CA {
 				fail(si, "c10.verify-options", fmt.Sprintf("cluster %q: verify options use CA %d but the client CA pool is %d", ci.Cluster, vca, inf.CA))
+			}
+			for _, n := range names {
+				if n != strings.ToLower(n) {
+					fail(si, "c10.names-not-lowered", fmt.Sprintf("cluster %q: LoadServerNames contains %q, which is not lower-cased", ci.Cluster, n))
+				}
 			}
 			if names[0] != ci.Cluster {
 				fail(si, "c10.names-head", fmt.Sprintf("cluster %q: LoadServerNames starts with %q", ci.Cluster, names[0]))
@@ -624,6 +643,9 @@ func readable(cs Case) interface{} {
 	var txt []string
 	for _, s := range cs.Steps {
 		t := s.K + " " + fmt.Sprintf("%q", rig.UnHex(s.Name))
+		if s.Ev > 0 {
+			t += fmt.Sprintf(" (event object: %d versions old)", s.Ev)
+		}
 		if s.Spec != nil {
 			var al []string
 			for _, a := range s.Spec.Aliases {
